@@ -598,6 +598,12 @@ func (sp *subProcess) run(ctx context.Context, out tracing.ITracer, sender traci
 					// activation's traces a second time and leaves with that activation's completion
 					sp.activation.Lock()
 					defer sp.activation.Unlock()
+					if ctx.Err() != nil {
+						// cancelled while waiting for its turn: nothing is started any more (the inner node
+						// loops have ended, a start event would never take the trigger)
+						sp.wr.tracer.Send(CancellationFlowNodeTrace{Node: sp.element})
+						return
+					}
 
 					// subscribe before the inner flows start, otherwise their first traces
 					// (including task requests) are sent before the relay listens and are lost
